@@ -10,6 +10,7 @@ LEVEL = "proof"
 MODEL_FILES = ["Model/View.v", "Model/AlgoIO.v", "Model/Traversal.v", "Model/AlgoBasic.v", "Model/ShortestM.v", "Model/MstM.v",
                "Model/MatchM.v", "Model/CutM.v", "Model/MiscM.v"]
 THEOREMS = []
+EXTRA_PROPS = ["C07b"]
 STREAMS = [("C07", 600, 20000), ("C08", 500, 20000), ("C09", 500, 20000), ("C10", 400, 20000), ("C11", 400, 20000),
            ("C12", 400, 20000), ("C15", 400, 20000), ("C16", 400, 20000), ("C20", 600, 20000)]
 SHARD = 2000
